@@ -1081,3 +1081,19 @@ Lemma downstream_conflict_retried_now :
                                 ESup 0; EResumeResp 0 RespConflict; EResumeResp 0 RespOk] in
   sclosed_of (snd r) = [] /\ finals_of (fst r) = [(0, 0)] /\ resumereqs_of (snd r) = [(1, 0, true); (1, 0, true)].
 Proof. vm_compute. repeat split. Qed.
+
+(* ------------------------------------------------------------------------------------------ *)
+(* C10: a stream Close is final whatever the broker answers to the close request *)
+
+Lemma stream_close_final_whatever_the_answer : forall c i s, find_s i (c_streams c) = Some s ->
+  s_phase s = SDraining -> s_held s = c_gen c -> writable c = true ->
+  forall e, e = EStreamCloseResp i \/ e = EStreamCloseRefused i ->
+  snd (step c e) = [OStreamClosed i false] /\
+  (exists s', find_s i (c_streams (fst (step c e))) = Some s' /\ s_phase s' = SClosed true true) /\
+  (* and a later Close of the same stream writes nothing *)
+  snd (step (fst (step c e)) (EStreamClose i)) = [].
+Proof.
+  intros c i s Fi P H W e [-> | ->]; cbn [step]; unfold stream_close_resp_step; rewrite Fi, P, H, N.eqb_refl, W; cbn;
+    (split; [reflexivity|]); (split; [eexists; split; [apply find_upd_same; [reflexivity|exact Fi]|reflexivity]|]);
+    unfold stream_close_step; cbn; erewrite find_upd_same; [|reflexivity|exact Fi| |reflexivity|exact Fi]; reflexivity.
+Qed.
